@@ -49,6 +49,13 @@ func U8(t *rapid.T, label string) uint8 {
 
 // Civil draws a calendar date 0001-01-02..9999-12-31.
 func Civil(t *rapid.T, label string) spec.Civil {
+	// leap days, incl. the century rule (1600, 2000, 2400 are leap years; 1900, 2100 are not: their last February day is the 28th)
+	switch rapid.IntRange(0, 29).Draw(t, label+".leap") {
+	case 0:
+		return spec.Civil{Y: rapid.SampledFrom([]int{4, 400, 1600, 1904, 1996, 2000, 2004, 2024, 2096, 2400, 9996}).Draw(t, label+".leapyear"), M: 2, D: 29}
+	case 1:
+		return spec.Civil{Y: rapid.SampledFrom([]int{100, 1700, 1800, 1900, 2100, 2200, 2023}).Draw(t, label+".commonyear"), M: rapid.SampledFrom([]int{2, 3}).Draw(t, label+".febmar"), D: rapid.SampledFrom([]int{28, 1}).Draw(t, label+".d28")}
+	}
 	var y int
 	switch rapid.IntRange(0, 5).Draw(t, label+".ykind") {
 	case 0:
